@@ -496,3 +496,35 @@ func ruleC13R5(c *Ctx) {
 	}
 	c.floor("C13.R5", "time.Date calls in transform/tparsetime", nDate, 1)
 }
+
+// ---- C13.R6 (delegation, added after seed c13g): the instant is computed by package time. Calendar arithmetic (leap
+// years, days before a month, the epoch) is value-level; the claim "the event time equals the instant denoted, for all
+// dates" rests on parseRFC3339Timestamp handing the decoded fields to time.Date. Every value returned together with a
+// possibly nil error must be the result of time.Date (error returns carry time.Now() / the zero time); a fast path that
+// computes Unix seconds itself fails as UNDECIDED — also a correct one.
+func init() {
+	register("C13", "C13.R6", ruleC13R6)
+}
+
+func ruleC13R6(c *Ctx) {
+	fn := c.P.Fn("transform/tparsetime.parseRFC3339Timestamp")
+	errIdx := fn.Signature.Results().Len() - 1
+	n := 0
+	for _, rv := range returnedValues(fn, 0) {
+		// the error returned with it
+		var errv ssa.Value
+		if ret, ok := rv.At.(*ssa.Return); ok && errIdx < len(ret.Results) {
+			errv = ret.Results[errIdx]
+		}
+		if errv != nil && neverNilError(errv) {
+			continue // a failure: the time value is not used (C13.R2)
+		}
+		n++
+		cl, ok := strip(rv.Val).(*ssa.Call)
+		isDate := ok && cl.Common().StaticCallee() != nil && extName(cl.Common().StaticCallee()) == "time.Date"
+		c.check(isDate, "C13.R6", fn, "the instant of a successfully parsed timestamp is time.Date(decoded fields)", rv.At.Pos(),
+			"delegated to package time",
+			"UNDECIDED (counts as failure): a successful return carries a time that is not the result of time.Date — the module computes the instant (calendar arithmetic) itself, which this family does not decide; the clause 'for all dates' rested on the delegation")
+	}
+	c.floor("C13.R6", "successful returns of parseRFC3339Timestamp", n, 1)
+}
